@@ -56,11 +56,13 @@ NS_REL = "http://schemas.openxmlformats.org/officeDocument/2006/relationships"
 NS_PKG = "http://schemas.openxmlformats.org/package/2006/relationships"
 
 
-def build_xlsx(f, code_name="", text_map=None, shared_rows=0):
+def build_xlsx(f, code_name="", text_map=None, shared_rows=0, rich="", twin=""):
     """bytes of a minimal, valid xlsx package for a file of the bounded model (written with string templates and
     zipfile: shares nothing with the library).  Cell format 1 duplicates cell format 0 (it only adds the attribute
     pivotButton, which the library does not model), cell format 2 is a bold font.  shared_rows = n > 0 puts a shared
-    formula into column C of rows 1..n (master C1 with text and ref, the others only with si)."""
+    formula into column C of rows 1..n (master C1 with text and ref, the others only with si).  rich = text puts a
+    rich-text cell D5 (first half bold, rest plain) into a row of its own; twin = "before" / "after" adds a PLAIN string
+    with the same characters in C5 / E5 (two string items that differ only in kind)."""
     text_map = text_map or {}
     sheets = f["sheets"]
     ct = ['<?xml version="1.0" encoding="UTF-8" standalone="yes"?>',
@@ -98,8 +100,15 @@ def build_xlsx(f, code_name="", text_map=None, shared_rows=0):
         '<xf numFmtId="0" fontId="1" fillId="0" borderId="0" xfId="0" applyFont="1"/></cellXfs>'
         '<cellStyles count="1"><cellStyle name="Normal" xfId="0" builtinId="0"/></cellStyles></styleSheet>')
     sst = [text_map.get(t, t) for t in f["sst"]]
-    parts["xl/sharedStrings.xml"] = (f'<?xml version="1.0" encoding="UTF-8" standalone="yes"?><sst xmlns="{NS_MAIN}" count="{len(sst)}" uniqueCount="{len(sst)}">'
-                                     + "".join(f'<si><t xml:space="preserve">{_esc(t)}</t></si>' for t in sst) + '</sst>')
+    items = [f'<si><t xml:space="preserve">{_esc(t)}</t></si>' for t in sst]
+    if rich:
+        h = max(1, len(rich) // 2)
+        items.append(f'<si><r><rPr><b/><sz val="11"/><rFont val="Calibri"/></rPr><t xml:space="preserve">{_esc(rich[:h])}</t></r>'
+                     f'<r><t xml:space="preserve">{_esc(rich[h:])}</t></r></si>')
+        if twin:
+            items.append(f'<si><t xml:space="preserve">{_esc(rich)}</t></si>')
+    parts["xl/sharedStrings.xml"] = (f'<?xml version="1.0" encoding="UTF-8" standalone="yes"?><sst xmlns="{NS_MAIN}" count="{len(items)}" uniqueCount="{len(items)}">'
+                                     + "".join(items) + '</sst>')
     for i, sh in enumerate(sheets):
         rows = {r["r"]: r for r in sh["rows"]}
         out = [f'<?xml version="1.0" encoding="UTF-8" standalone="yes"?><worksheet xmlns="{NS_MAIN}" xmlns:r="{NS_REL}">']
@@ -128,6 +137,13 @@ def build_xlsx(f, code_name="", text_map=None, shared_rows=0):
                 out.append(f'<c r="C{rn}"><f t="shared" ref="C1:C{shared_rows}" si="0">A1+1</f><v>{rn}</v></c>' if rn == 1 else
                            f'<c r="C{rn}"><f t="shared" si="0"/><v>{rn}</v></c>')
             out.append('</row>')
+        if rich and i == 0:
+            row5 = [f'<c r="D5" t="s"><v>{len(sst)}</v></c>']
+            if twin == "before":
+                row5.insert(0, f'<c r="C5" t="s"><v>{len(sst) + 1}</v></c>')
+            elif twin == "after":
+                row5.append(f'<c r="E5" t="s"><v>{len(sst) + 1}</v></c>')
+            out.append('<row r="5">' + "".join(row5) + '</row>')
         out.append('</sheetData></worksheet>')
         parts[f"xl/worksheets/sheet{i + 1}.xml"] = "".join(out)
     buf = io.BytesIO()
@@ -142,12 +158,16 @@ def from_tlc(replay, rng):
     f = replay[0]["file"]
     texts = {"a": rng.choice(["a", "plain", " padded "]), "a&b": rng.choice(["a&b", "x<y>&\"z\"", "&amp;", "\u00e9&\U0001F600"]),
              "unused": "unused & lost"}
-    data = build_xlsx(f, text_map=texts)
+    rich = rng.choice(["", "Total 2024", "a&b <rich> \u00e9"])
+    twin = rng.choice(["", "before", "after"]) if rich else ""
+    data = build_xlsx(f, text_map=texts, rich=rich, twin=twin)
     edits = []
     for st in replay[1:]:
         if st["a"] == "Edit":
             edits.append({"si": st["s"] - 1, "mode": "at", "pick": 0, "r": st["r"], "c": st["c"],
                           "k": st["k"], "v": st["v"], "b": bits(float(st["v"])) if st["k"] == "num" else ""})
+    if rich and not twin:
+        edits.append(rng.choice(echo_edits(rng, 1)))
     return {"src": {"kind": "hex", "hex": data.hex(), "name": "tlc-model-file"}, "gens": 3, "light": rng.random() < 0.3,
             "edit": edits, "family": "tlc"}
 
@@ -333,6 +353,20 @@ def class_edits(rng, nsheets=8):
     return out
 
 
+ECHOES = [(e, w) for e in ("plain-of-rich", "rich-of-plain", "rich-of-rich") for w in ("before", "after")]
+
+
+def echo_edits(rng, nsheets=8):
+    """edits that repeat the characters of an existing string cell in another kind (plain <-> rich text) or in other
+    runs, right before / behind that cell: nothing but the edited cell may change - not its kind, not its runs"""
+    out = []
+    for e, w in ECHOES:
+        ed = rand_edit(rng)
+        ed.update({"mode": "echo", "echo": e, "where": w, "si": rng.randint(0, nsheets - 1), "k": "text"})
+        out.append(ed)
+    return out
+
+
 def channel_fixture():
     """One workbook with an XML-special text in every text channel of MC_Channels (always part of the run)."""
     t = "a&b<c>d\"e'f " + DEEP
@@ -447,6 +481,12 @@ def gen_cases(chk):
                   "edit": [{"si": 0, "mode": "existing", "pick": 0, "r": 1, "c": 1, "k": "text", "v": "new & <text>", "b": ""}],
                   "family": "channels"})
     cases.append({"src": {"kind": "gen", "wb": channel_fixture()}, "gens": 3, "light": True, "edit": [rand_edit(rng)], "family": "channels"})
+    cases.append({"src": {"kind": "gen", "wb": channel_fixture()}, "gens": 2, "light": False, "edit": echo_edits(rng, 1), "family": "channels"})
+    twins = {"x0": "X0", "xfs": ["X0", "S1"], "sst": ["a", "a&b"], "extra": [], "rid": "o",
+             "sheets": [{"cells": [{"r": 1, "c": 1, "t": "s", "v": 1, "f": "", "xf": -1}], "rows": [{"r": 1, "ht": "0", "xf": -1}]}]}
+    for tw in ("before", "after", ""):
+        cases.append({"src": {"kind": "hex", "hex": build_xlsx(twins, rich="Total 2024", twin=tw).hex(), "name": "rich-twin-" + (tw or "none")},
+                      "gens": 2, "light": False, "edit": echo_edits(rng, 1) if not tw else [rand_edit(rng)], "family": "twins"})
     ncor = 0
     big = []
     for name, path in corpus_files(not quick):
@@ -456,9 +496,9 @@ def gen_cases(chk):
                         "edit": [rand_edit(rng)], "family": "corpus-big"})
             continue
         if quick:
-            groups = [[rand_edit(rng)]]
+            groups = [[rand_edit(rng), rng.choice(echo_edits(rng))]]
         else:
-            ce = class_edits(rng) + class_edits(rng, 1)
+            ce = class_edits(rng) + class_edits(rng, 1) + echo_edits(rng) + echo_edits(rng, 1)
             groups = [[rand_edit(rng) for _ in range(4)]] + [ce[i:i + 5] for i in range(0, len(ce), 5)]
         if name == "aaa.xlsx":       # W6 of the second sheet is the master of a shared formula (W6:W14): C04-KF4
             groups[0].append({"si": 1, "mode": "at", "pick": 0, "r": 6, "c": 23, "k": "text", "v": "over the master", "b": ""})
@@ -485,10 +525,11 @@ def gen_cases(chk):
     ngen = 250 if quick else 2500
     for k in range(ngen):
         cases.append({"src": {"kind": "gen", "wb": rand_wb(rng, rng.choice([3, 8, 20, 40]))}, "gens": 3, "light": rng.random() < 0.3,
-                      "edit": [rand_edit(rng)] if quick else [rand_edit(rng)] + rng.sample(class_edits(rng, 3), 2),
+                      "edit": [rand_edit(rng), rng.choice(echo_edits(rng, 3))] if quick
+                      else [rand_edit(rng)] + rng.sample(class_edits(rng, 3), 2) + rng.sample(echo_edits(rng, 3), 2),
                       "family": "generated"})
     chk.extra["cases"] = {"corpus_files": ncor, "of_which_large": len(big), "tlc_model_files": ntlc, "of_all_tlc_behaviours": total, "generated_workbooks": ngen,
-                          "fixtures": 3}
+                          "fixtures": 7}
     for i, c in enumerate(cases + big):
         c["case"] = i
     return cases, big
@@ -627,6 +668,16 @@ def run(chk):
     if missing:
         raise vlib.ToolError("text channels never exercised with an XML-special character: " + ", ".join(missing))
     chk.extra["channels_exercised_distinct_special_texts"] = {c: len(v) for c, v in seen.items()}
+    # measurement: the echo edits that found a string cell to repeat (vacuity guard: every variant at least once)
+    applied = {f"{e}/{w}": 0 for e, w in ECHOES}
+    for ci, evs in enumerate(events):
+        eds = [e for e in evs if e.get("a") == "Edit"]
+        for spec, ev in zip(cases[ci]["edit"], eds):
+            if spec.get("mode") == "echo" and ev.get("echoed"):
+                applied[f"{spec['echo']}/{spec['where']}"] += 1
+    if not all(applied.values()):
+        raise vlib.ToolError("echo edits never applied: " + ", ".join(k for k, v in applied.items() if not v))
+    chk.extra["echo_edits_applied"] = applied
     chk.extra["corpus_files_the_library_rejects"] = sorted(
         cases[ci]["src"]["name"] for ci, evs in enumerate(events)
         if cases[ci]["family"] == "corpus" and evs and evs[0].get("outcome") == "unreadable")
